@@ -176,6 +176,14 @@ def gen_cases(rng, tier):
         cases.append({"params": params, "full": _j({"a": ["a", 7][i % 2]}), "surplus": [], "extra": _j(extra), "mode": "explicit",
                       "tmpl": ["k", "a", "__kwargs__"] if i % 2 else ["k", "__kwargs__"], "fmt": fmt,
                       "full2": _j({"a": ["z", 1][i % 2]}) if i % 2 else None, "given": True, "surplus2": None, "ctx_left_by_exception": False})
+    # an int and the bool equal to it are different arguments (True -> 'true', 1 -> '1'): same function, first one, then the other
+    for i in range(16):
+        params = [{"name": "a", "kind": "PK", "default": "<nodefault>"}, {"name": "b", "kind": ["PK", "KO"][i % 2], "default": [0, "z"][(i // 2) % 2]}]
+        v1, v2 = [(True, 1), (1, True), (False, 0), (0, False)][i % 4]
+        bd = params[1]["default"]
+        cases.append({"params": params, "full": _j({"a": v1, "b": bd}), "surplus": [], "extra": {}, "mode": ["auto", "decor", "explicit", "auto"][(i // 4) % 4],
+                      "tmpl": ["k", "a"] if (i // 4) % 4 == 2 else None, "fmt": None, "full2": _j({"a": v2, "b": bd}), "given": True, "surplus2": None,
+                      "ctx_left_by_exception": False})
     return cases
 
 
